@@ -3,6 +3,6 @@
 N=$1; ID=$2; T=${3:-quick}
 cp /verif/evidence/$ID.json /tmp/ev-try-$ID.json 2>/dev/null
 git -C /repo apply /verif/seeded/$N/patch.diff || exit 3
-cd /verif && ./run.sh $ID $T 2>&1 | grep -E "^  |^C[0-9]+ |VIOL|ENGINE|KNOWN" | head -${LINES_MAX:-6} | cut -c1-260
+cd /verif && ./run.sh $ID $T 2>&1 | grep -aE "^  |^C[0-9]+ |VIOL|ENGINE|KNOWN" | head -${LINES_MAX:-6} | cut -c1-260
 git -C /repo checkout -- . ; git -C /repo clean -fdq
 [ -f /tmp/ev-try-$ID.json ] && mv /tmp/ev-try-$ID.json /verif/evidence/$ID.json
